@@ -120,11 +120,6 @@ def Layout.hash (e : HashEnv) (l : Layout) : Int :=
 
 /-! ### `Size.from_string` -/
 
-/-- longest prefix of `\d` characters and the rest -/
-def spanDecimals : Str → Str × Str
-  | [] => ([], [])
-  | c :: s => if isDecimal c then let r := spanDecimals s; (c :: r.1, r.2) else ([], c :: s)
-
 def unitOfText (s : Str) : Option Unit := Unit.all.find? (fun u => u.text == s)
 
 /-- `$`: end of string, or just before a final `'\n'` -/
